@@ -215,15 +215,16 @@ class OracleMixin:
         return spec.get("ecb" if kind == "e" else "ccb") or {}
 
     def on_complete(self, t):
+        if t.self_pending:
+            # requested its own cancellation (directly, or by the detour over an abandoned inline flush while inside its
+            # callbacks - then even a task that never began can be hit) and never suspended again: nothing is owed
+            t.owed -= 1
+            t.self_pending = False
+            t.pending = False
+            self.triggers.add("T.self_cancel_no_suspend")
+            self.triggers.add(f"T.self_cancel_no_suspend@{t.pool.idx}")
+            self.sit["self_cancel_no_suspend"] += 1
         if t.begun:
-            if t.self_pending:
-                # requested its own cancellation and never suspended again: nothing is owed
-                t.owed -= 1
-                t.self_pending = False
-                t.pending = False
-                self.triggers.add("T.self_cancel_no_suspend")
-                self.triggers.add(f"T.self_cancel_no_suspend@{t.pool.idx}")
-                self.sit["self_cancel_no_suspend"] += 1
             if t.seen != t.owed:
                 self.delivery_violation(t, f"task {t.tid}: observed {t.seen} cancellations, owed {t.owed}")
             elif t.owed:
